@@ -451,3 +451,32 @@ func sortedKeys(m map[string]int) []string {
 	sort.Strings(ks)
 	return ks
 }
+
+// deepUnwrap replaces every typedef reference inside t by its target.
+func (s *Schema) deepUnwrap(t *Ty) *Ty {
+	t = s.unwrap(t)
+	switch t.K {
+	case 'l':
+		return &Ty{K: 'l', Name: t.Name, Val: s.deepUnwrap(t.Val)}
+	case 'm':
+		return &Ty{K: 'm', Name: "map", Key: s.deepUnwrap(t.Key), Val: s.deepUnwrap(t.Val)}
+	}
+	return t
+}
+
+// expandedIDL writes the schema back as IDL text without typedefs (names that resolve to nothing — unions,
+// exceptions — stay unresolved, as before).
+func (s *Schema) expandedIDL() string {
+	var sb strings.Builder
+	for _, e := range s.Enums {
+		fmt.Fprintf(&sb, "enum %s { V0 = 0 }\n", e)
+	}
+	for _, st := range s.Structs {
+		fmt.Fprintf(&sb, "struct %s {\n", st.Name)
+		for _, f := range st.Fields {
+			fmt.Fprintf(&sb, "  %d: %s %s\n", f.ID, s.deepUnwrap(f.Ty).String(), f.Name)
+		}
+		sb.WriteString("}\n")
+	}
+	return sb.String()
+}
